@@ -432,7 +432,7 @@ def make_term(
     if coefficient == 1:
         return PowerExpression(varExp, expConstExp)
 
-    return PowerExpression(multExp, expConstExp)
+    return MultiplyExpression(constExp, PowerExpression(varExp, expConstExp))
 
 
 class TermResult:
